@@ -34,6 +34,10 @@ class Boom(Exception):
     """The mapped function fails."""
 
 
+class ConsumerError(Exception):
+    """The consumer's loop body raises (the iteration is abandoned by an exception, not by break)."""
+
+
 def load_module():
     import sedpack.io.itertools.lazy_pool as lp
     return importlib.reload(lp)
@@ -92,7 +96,7 @@ class RecQ:
                     raise Abort()
                 raise realqueue.Empty()
         v = SymVal(self.e, f"{self.name}{self.k}", self.dec, self.classes)
-        self.log.append(dict(kind="get", q=self.name, m=self.k))
+        self.log.append(dict(kind="get", q=self.name, m=self.k, nonblocking=(not block or timeout is not None)))
         self.k += 1
         return v
 
@@ -116,7 +120,16 @@ class RecQ:
         raise Inconclusive("qsize() not modelled")
 
     def empty(self):
-        raise Inconclusive("empty() not modelled")
+        """A racy probe: its answer is whatever is true at that instant (decided by the composition)."""
+        r = self.e.branch(z3.Bool(f"probe_empty_{self.name}_{len(self.log)}"))
+        self.log.append(dict(kind="probe-empty", q=self.name, result=bool(r)))
+        if len([x for x in self.log if x["kind"] == "probe-empty"]) > 8:
+            self.log.append(dict(kind="LIMIT"))
+            raise Abort()
+        return r
+
+    def get_nowait(self):
+        return self.get(block=False)
 
     put_nowait = put
 
@@ -214,8 +227,17 @@ def extract_consumer(lp, T, nmax, early, second_round=False):
                         log.append(dict(kind="emit", src=getattr(r, "name", None)))
                         emitted += 1
                         if early and emitted == x:
+                            if e.branch(z3.Bool("leave_by_exception")):
+                                log.append(dict(kind="consumer-raises"))
+                                raise ConsumerError()
                             log.append(dict(kind="break"))
                             break
+                log.append(dict(kind="END"))
+            except ConsumerError:
+                log.append(dict(kind="END"))
+            except realqueue.Empty:
+                # an exception of the queue library escaped the pool: the consumer sees an error that is not its own
+                log.append(dict(kind="RAISE"))
                 log.append(dict(kind="END"))
             except Boom:
                 log.append(dict(kind="RAISE"))
@@ -235,8 +257,9 @@ def extract_consumer(lp, T, nmax, early, second_round=False):
 
 
 class Composition:
-    def __init__(self, lp, T, nmax, fail=False, early=False):
+    def __init__(self, lp, T, nmax, fail=False, early=False, query_timeout_s=600):
         t0 = time.time()
+        self.query_timeout_s = query_timeout_s
         self.T, self.nmax, self.fail, self.early = T, nmax, fail, early
         self.WP, wst = extract_worker(lp, nmax, fail)
         self.CP, cst = extract_consumer(lp, T, nmax, early)
@@ -250,7 +273,7 @@ class Composition:
     def _encode(self):
         T, NMAX = self.T, self.nmax
         s = self.s = z3.Solver()
-        s.set("timeout", 600_000)
+        s.set("timeout", int(self.query_timeout_s * 1000))
         self.n = z3.Int("n")
         self.x = z3.Int("x")
         threads = self.threads = ["c"] + [f"w{w}" for w in range(T)]
@@ -268,6 +291,7 @@ class Composition:
         self.counts = (NputQp, NgetQp, NputQr, NgetQr)
         R = {f"w{w}": [z3.Int(f"R_w{w}_{m}") for m in range(NMAX + 4)] for w in range(T)}
         S = {f"w{w}": [z3.Int(f"S_w{w}_{m}") for m in range(2 * NMAX + 6)] for w in range(T)}
+        Rc = [z3.Int(f"R_c_{m}") for m in range(2 * NMAX + 2 * T + 8)]
         spawn_ts = [z3.Int(f"spawn_ts{w}") for w in range(T)]
         spawned = self.spawned = [z3.Bool(f"spawned{w}") for w in range(T)]
         for t in threads:
@@ -308,7 +332,17 @@ class Composition:
                     elif kind == "get":
                         q, m = ev["q"], ev["m"]
                         nm = f"{q}{m}"
-                        if t == "c":
+                        if t == "c" and q == "qp":
+                            # the consumer takes elements back from its own work queue: one more party on the get side
+                            r = Rc[m]
+                            wgets.append((ex, r, ts[t][k]))
+                            s.add(z3.Implies(ex, z3.And(r >= 0, r < NputQp, tsPutQp(r) < ts[t][k])))
+                            if nm in dec:
+                                s.add(z3.Implies(ex, kindQp(r) == dec[nm]))
+                            if not ev.get("nonblocking"):
+                                bl.append(z3.And(nxt, NgetQp >= NputQp))
+                            getrank[nm] = r
+                        elif t == "c":
                             if q.rstrip("'") != "qr" or q.endswith("'"):
                                 raise Inconclusive(f"consumer gets from {q}")
                             s.add(z3.Implies(ex, z3.And(m < NputQr, tsPutQr(m) < ts[t][k])))
@@ -327,10 +361,13 @@ class Composition:
                                 s.add(z3.Implies(ex, kindQp(r) == dec[nm]))
                             if "fail_" + nm in dec:
                                 s.add(z3.Implies(ex, Fail(idxQp(r)) == dec["fail_" + nm]))
-                            bl.append(z3.And(nxt, NgetQp >= NputQp))
+                            if not ev.get("nonblocking"):
+                                bl.append(z3.And(nxt, NgetQp >= NputQp))
                             getrank[nm] = r
                     elif kind == "get-timeout":
-                        timeouts.append((ex, ts[t][k], ev["q"], t))
+                        timeouts.append((ex, ts[t][k], ev["q"], t, None))
+                    elif kind == "probe-empty":
+                        timeouts.append((ex, ts[t][k], ev["q"].rstrip("'"), t, ev["result"]))
                     elif kind == "put":
                         q, val = ev["q"], ev["val"]
                         if t == "c":
@@ -407,14 +444,17 @@ class Composition:
         for w in range(T):
             s.add(z3.Implies(z3.Not(spawned[w]), cut[f"w{w}"] == 0))
         # a get may time out only while its queue is empty at that instant
-        for ex, tt, q, who in timeouts:
+        for ex, tt, q, who, probe in timeouts:
             if q == "qp":
                 nput = z3.Sum([z3.If(z3.And(e2, t2 < tt), 1, 0) for e2, t2 in cputs_qp] + [z3.IntVal(0)])
                 nget = z3.Sum([z3.If(z3.And(e2, t2 < tt), 1, 0) for e2, _, t2 in wgets] + [z3.IntVal(0)])
             else:
                 nput = z3.Sum([z3.If(z3.And(e2, t2 < tt), 1, 0) for e2, _, t2 in wputs] + [z3.IntVal(0)])
                 nget = z3.Sum([z3.If(z3.And(e2, t2 < tt), 1, 0) for e2, t2 in cgets_qr] + [z3.IntVal(0)])
-            s.add(z3.Implies(ex, nput == nget))
+            if probe is None:
+                s.add(z3.Implies(ex, nput == nget))  # a get may time out only while its queue is empty
+            else:
+                s.add(z3.Implies(ex, (nput == nget) == probe))  # empty() answers truthfully for that instant
         s.add(self.n >= 0, self.n <= NMAX)
         if self.fail:
             self.j0 = z3.Int("failing_input")
